@@ -196,6 +196,9 @@ func runWorldCase(c *Case, env *Env) *Result {
 					f = checkStatsMergeAdds(ws.Seg, w.Segs[0].Seg, model.UnknownField)
 				}
 			}
+			if f == nil {
+				f = checkStatsMergeForeign(ws.Seg, ws.Fields[len(ws.Fields)-1])
+			}
 		default:
 			panic(&HarnessPanic{Msg: "scenario world has no oracle for " + env.Prop})
 		}
